@@ -159,7 +159,10 @@ func (d *typeDictionary) resolveTypedefs() []error {
 func (t *Typedef) resolve(d *typeDictionary) []error {
 	// If we have no parent we are a base type and
 	// are already resolved.
-	if t.Parent == nil || t.YangType != nil {
+	if t.Parent == nil {
+		return nil
+	}
+	if t.YangType != nil && (!t.resolved || t.resolvePass == d.pass) {
 		return nil
 	}
 
@@ -205,25 +208,27 @@ func (t *Typedef) resolve(d *typeDictionary) []error {
 		y.Root = &y
 	}
 	t.YangType = &y
+	t.resolved, t.resolvePass = true, d.pass
 	return nil
 }
 
 // resolve resolves Type t, as well as the underlying typedef for t.  If t
 // cannot be resolved then one or more errors are returned.
 func (t *Type) resolve(d *typeDictionary) []error {
-	if t.YangType != nil && !t.resolveFailed {
+	if t.YangType != nil && !t.resolved {
+		// Filled in by someone else (built-in types).
 		return nil
 	}
-	// A type whose resolution failed is resolved again, so that the next
-	// Process reports the same problems again, or succeeds once what was
-	// missing has been loaded.  Within one pass the outcome is remembered:
-	// every user of a broken typedef would otherwise walk the whole chain
-	// below it again.
-	if t.resolveFailed && t.resolvePass == d.pass {
+	// A resolution holds for one pass, so that the next Process reports the
+	// same problems again, or succeeds once what was missing has been
+	// loaded, or follows a newer revision of what the type refers to.
+	// Within one pass the outcome is remembered: every user of a broken
+	// typedef would otherwise walk the whole chain below it again.
+	if t.resolved && t.resolvePass == d.pass {
 		return t.resolveErrs
 	}
 	errs := uniqueErrors(t.resolve1(d))
-	t.resolveFailed = len(errs) != 0
+	t.resolved = true
 	t.resolveErrs, t.resolvePass = errs, d.pass
 	return errs
 }
